@@ -164,6 +164,27 @@ pub mod ufb {
         }
     }
     pub fn block(x: [u32; 4], _key: &[u32; 8]) -> [u32; 4] { apply(x) }
+
+    /// the same keyed: an uninterpreted function of (x, key)
+    pub static mut KK: [[u32; 8]; MAXC] = [[0; 8]; MAXC];
+    pub static mut KX: [[u32; 4]; MAXC] = [[0; 4]; MAXC];
+    pub static mut KY: [[u32; 4]; MAXC] = [[0; 4]; MAXC];
+    pub static mut KN: usize = 0;
+    #[allow(static_mut_refs)]
+    pub fn block_keyed(x: [u32; 4], key: &[u32; 8]) -> [u32; 4] {
+        unsafe {
+            let mut y: [u32; 4] = [kani::any(), kani::any(), kani::any(), kani::any()];
+            let mut found = false;
+            let mut i = 0;
+            while i < KN {
+                if !found && eq4(&KX[i], &x) && eq8(&KK[i], key) { y = KY[i]; found = true; }
+                i += 1;
+            }
+            assert!(KN < MAXC);
+            KK[KN] = *key; KX[KN] = x; KY[KN] = y; KN += 1;
+            y
+        }
+    }
 }
 
 // ------------------------------------------------------------------------------------------------ tables, G_r, key_idx
@@ -309,84 +330,12 @@ fn c_belt_block_raw() {
 }
 
 // ------------------------------------------------------------------------------------------------ belt-wblock (6.2.3 / 6.2.4)
-// belt_block_raw is abstracted to the uninterpreted function `ufb` on the real side and in the reference
-// (`wblock_*_with`), so the statements hold for every block function, in particular for belt-block under every key.
-fn ref_enc(d: &mut [u8]) -> bool { spec::wblock_enc_with(d, ufb::apply) }
-fn ref_dec(d: &mut [u8]) -> bool { spec::wblock_dec_with(d, ufb::apply) }
-
-macro_rules! wblock {
-    ($len:expr, $enc:ident, $dec:ident, $rt:ident, $rtrev:ident) => {
-        // conformance of belt_wblock_enc to 6.2.3 at this length
-        #[kani::proof]
-        #[kani::stub(belt_block_raw, ufb::block)]
-        #[kani::unwind(70)]
-        fn $enc() {
-            let key: [u32; 8] = kani::any();
-            let d0: [u8; $len] = kani::any();
-            let (mut d, mut e) = (d0, d0);
-            assert!(belt_wblock_enc(&mut d, &key).is_ok());
-            assert!(ref_enc(&mut e));
-            assert!(eq_bytes(&d, &e));
-        }
-        // conformance of belt_wblock_dec to 6.2.4 at this length
-        #[kani::proof]
-        #[kani::stub(belt_block_raw, ufb::block)]
-        #[kani::unwind(70)]
-        fn $dec() {
-            let key: [u32; 8] = kani::any();
-            let d0: [u8; $len] = kani::any();
-            let (mut d, mut e) = (d0, d0);
-            assert!(belt_wblock_dec(&mut d, &key).is_ok());
-            assert!(ref_dec(&mut e));
-            assert!(eq_bytes(&d, &e));
-        }
-        // dec(enc(x)) == x
-        #[kani::proof]
-        #[kani::stub(belt_block_raw, ufb::block)]
-        #[kani::unwind(70)]
-        fn $rt() {
-            let key: [u32; 8] = kani::any();
-            let d0: [u8; $len] = kani::any();
-            let mut d = d0;
-            assert!(belt_wblock_enc(&mut d, &key).is_ok());
-            assert!(belt_wblock_dec(&mut d, &key).is_ok());
-            assert!(eq_bytes(&d, &d0));
-        }
-        // enc(dec(x)) == x
-        #[kani::proof]
-        #[kani::stub(belt_block_raw, ufb::block)]
-        #[kani::unwind(70)]
-        fn $rtrev() {
-            let key: [u32; 8] = kani::any();
-            let d0: [u8; $len] = kani::any();
-            let mut d = d0;
-            assert!(belt_wblock_dec(&mut d, &key).is_ok());
-            assert!(belt_wblock_enc(&mut d, &key).is_ok());
-            assert!(eq_bytes(&d, &d0));
-        }
-    };
-}
-// @ob name=w_enc_32 props=C18,C20 kind=bounded bound="input length 32 bytes" fn=belt_block::belt_wblock_enc uses=c_belt_block_raw timeout=900
-// @ob name=w_dec_32 props=C18,C20 kind=bounded bound="input length 32 bytes" fn=belt_block::belt_wblock_dec uses=c_belt_block_raw timeout=900
-// @ob name=w_rt_32 props=C01,C18,C20 kind=bounded bound="input length 32 bytes" fn=belt_block::belt_wblock_enc,belt_block::belt_wblock_dec uses=c_belt_block_raw timeout=900
-// @ob name=w_rtrev_32 props=C01,C18,C20 kind=bounded bound="input length 32 bytes" fn=belt_block::belt_wblock_enc,belt_block::belt_wblock_dec uses=c_belt_block_raw timeout=900
-wblock!(32, w_enc_32, w_dec_32, w_rt_32, w_rtrev_32);
-// @ob name=w_enc_33 props=C18,C20 kind=bounded bound="input length 33 bytes" fn=belt_block::belt_wblock_enc uses=c_belt_block_raw timeout=900
-// @ob name=w_dec_33 props=C18,C20 kind=bounded bound="input length 33 bytes" fn=belt_block::belt_wblock_dec uses=c_belt_block_raw timeout=900
-// @ob name=w_rt_33 props=C01,C18,C20 kind=bounded bound="input length 33 bytes" fn=belt_block::belt_wblock_enc,belt_block::belt_wblock_dec uses=c_belt_block_raw timeout=900
-// @ob name=w_rtrev_33 props=C01,C18,C20 kind=bounded bound="input length 33 bytes" fn=belt_block::belt_wblock_enc,belt_block::belt_wblock_dec uses=c_belt_block_raw timeout=900
-wblock!(33, w_enc_33, w_dec_33, w_rt_33, w_rtrev_33);
-// @ob name=w_enc_47 props=C18,C20 kind=bounded bound="input length 47 bytes" fn=belt_block::belt_wblock_enc uses=c_belt_block_raw timeout=900
-// @ob name=w_dec_47 props=C18,C20 kind=bounded bound="input length 47 bytes" fn=belt_block::belt_wblock_dec uses=c_belt_block_raw timeout=900
-// @ob name=w_rt_47 props=C01,C18,C20 kind=bounded bound="input length 47 bytes" fn=belt_block::belt_wblock_enc,belt_block::belt_wblock_dec uses=c_belt_block_raw timeout=900
-// @ob name=w_rtrev_47 props=C01,C18,C20 kind=bounded bound="input length 47 bytes" fn=belt_block::belt_wblock_enc,belt_block::belt_wblock_dec uses=c_belt_block_raw timeout=900
-wblock!(47, w_enc_47, w_dec_47, w_rt_47, w_rtrev_47);
-// @ob name=w_enc_48 props=C18,C20 kind=bounded bound="input length 48 bytes" fn=belt_block::belt_wblock_enc uses=c_belt_block_raw timeout=900
-// @ob name=w_dec_48 props=C18,C20 kind=bounded bound="input length 48 bytes" fn=belt_block::belt_wblock_dec uses=c_belt_block_raw timeout=900
-// @ob name=w_rt_48 props=C01,C18,C20 kind=bounded bound="input length 48 bytes" fn=belt_block::belt_wblock_enc,belt_block::belt_wblock_dec uses=c_belt_block_raw timeout=900
-// @ob name=w_rtrev_48 props=C01,C18,C20 kind=bounded bound="input length 48 bytes" fn=belt_block::belt_wblock_enc,belt_block::belt_wblock_dec uses=c_belt_block_raw timeout=900
-wblock!(48, w_enc_48, w_dec_48, w_rt_48, w_rtrev_48);
-
+// belt_block_raw is abstracted to the transcript oracle `trb` (see `tr`), on the real side and in the reference
+// (`wblock_*_with`), so the statements hold for every block function, in particular belt-block under every key:
+//  * conformance: the real function's 2n block calls are recorded; the reference must ask the same questions in the
+//    same order and produce the same buffer;
+//  * round trips: the second direction must ask the first direction's questions in REVERSE order (both directions
+//    use belt-block in the forward direction only) and restores the buffer.
 fn tref_enc(d: &mut [u8]) -> bool { spec::wblock_enc_with(d, trb::apply) }
 fn tref_dec(d: &mut [u8]) -> bool { spec::wblock_dec_with(d, trb::apply) }
 macro_rules! wblock_tr {
@@ -447,16 +396,26 @@ macro_rules! wblock_tr {
         }
     };
 }
-// @ob name=t_enc_32 props=C18,C20 kind=bounded bound="input length 32 bytes" fn=belt_block::belt_wblock_enc uses=c_belt_block_raw timeout=900
-// @ob name=t_dec_32 props=C18,C20 kind=bounded bound="input length 32 bytes" fn=belt_block::belt_wblock_dec uses=c_belt_block_raw timeout=900
-// @ob name=t_rt_32 props=C01,C18,C20 kind=bounded bound="input length 32 bytes" fn=belt_block::belt_wblock_enc,belt_block::belt_wblock_dec uses=c_belt_block_raw timeout=900
-// @ob name=t_rtrev_32 props=C01,C18,C20 kind=bounded bound="input length 32 bytes" fn=belt_block::belt_wblock_enc,belt_block::belt_wblock_dec uses=c_belt_block_raw timeout=900
-wblock_tr!(32, t_enc_32, t_dec_32, t_rt_32, t_rtrev_32);
-// @ob name=t_enc_47 props=C18,C20 kind=bounded bound="input length 47 bytes" fn=belt_block::belt_wblock_enc uses=c_belt_block_raw timeout=900
-// @ob name=t_dec_47 props=C18,C20 kind=bounded bound="input length 47 bytes" fn=belt_block::belt_wblock_dec uses=c_belt_block_raw timeout=900
-// @ob name=t_rt_47 props=C01,C18,C20 kind=bounded bound="input length 47 bytes" fn=belt_block::belt_wblock_enc,belt_block::belt_wblock_dec uses=c_belt_block_raw timeout=900
-// @ob name=t_rtrev_47 props=C01,C18,C20 kind=bounded bound="input length 47 bytes" fn=belt_block::belt_wblock_enc,belt_block::belt_wblock_dec uses=c_belt_block_raw timeout=900
-wblock_tr!(47, t_enc_47, t_dec_47, t_rt_47, t_rtrev_47);
+// @ob name=w_enc_32 props=C18,C20 kind=bounded bound="input length 32 bytes" fn=belt_block::belt_wblock_enc,belt_block::xor,belt_block::xor_set uses=c_belt_block_raw timeout=900
+// @ob name=w_dec_32 props=C18,C20 kind=bounded bound="input length 32 bytes" fn=belt_block::belt_wblock_dec,belt_block::xor,belt_block::xor_set uses=c_belt_block_raw timeout=900
+// @ob name=w_rt_32 props=C01,C18,C20 kind=bounded bound="input length 32 bytes" fn=belt_block::belt_wblock_enc,belt_block::belt_wblock_dec uses=c_belt_block_raw timeout=900
+// @ob name=w_rtrev_32 props=C01,C18,C20 kind=bounded bound="input length 32 bytes" fn=belt_block::belt_wblock_enc,belt_block::belt_wblock_dec uses=c_belt_block_raw timeout=900
+wblock_tr!(32, w_enc_32, w_dec_32, w_rt_32, w_rtrev_32);
+// @ob name=w_enc_33 props=C18,C20 kind=bounded bound="input length 33 bytes" fn=belt_block::belt_wblock_enc,belt_block::xor,belt_block::xor_set uses=c_belt_block_raw timeout=900
+// @ob name=w_dec_33 props=C18,C20 kind=bounded bound="input length 33 bytes" fn=belt_block::belt_wblock_dec,belt_block::xor,belt_block::xor_set uses=c_belt_block_raw timeout=900
+// @ob name=w_rt_33 props=C01,C18,C20 kind=bounded bound="input length 33 bytes" fn=belt_block::belt_wblock_enc,belt_block::belt_wblock_dec uses=c_belt_block_raw timeout=900
+// @ob name=w_rtrev_33 props=C01,C18,C20 kind=bounded bound="input length 33 bytes" fn=belt_block::belt_wblock_enc,belt_block::belt_wblock_dec uses=c_belt_block_raw timeout=900
+wblock_tr!(33, w_enc_33, w_dec_33, w_rt_33, w_rtrev_33);
+// @ob name=w_enc_47 props=C18,C20 kind=bounded bound="input length 47 bytes" fn=belt_block::belt_wblock_enc,belt_block::xor,belt_block::xor_set uses=c_belt_block_raw timeout=900
+// @ob name=w_dec_47 props=C18,C20 kind=bounded bound="input length 47 bytes" fn=belt_block::belt_wblock_dec,belt_block::xor,belt_block::xor_set uses=c_belt_block_raw timeout=900
+// @ob name=w_rt_47 props=C01,C18,C20 kind=bounded bound="input length 47 bytes" fn=belt_block::belt_wblock_enc,belt_block::belt_wblock_dec uses=c_belt_block_raw timeout=900
+// @ob name=w_rtrev_47 props=C01,C18,C20 kind=bounded bound="input length 47 bytes" fn=belt_block::belt_wblock_enc,belt_block::belt_wblock_dec uses=c_belt_block_raw timeout=900
+wblock_tr!(47, w_enc_47, w_dec_47, w_rt_47, w_rtrev_47);
+// @ob name=w_enc_48 props=C18,C20 kind=bounded bound="input length 48 bytes" fn=belt_block::belt_wblock_enc,belt_block::xor,belt_block::xor_set uses=c_belt_block_raw timeout=900
+// @ob name=w_dec_48 props=C18,C20 kind=bounded bound="input length 48 bytes" fn=belt_block::belt_wblock_dec,belt_block::xor,belt_block::xor_set uses=c_belt_block_raw timeout=900
+// @ob name=w_rt_48 props=C01,C18,C20 kind=bounded bound="input length 48 bytes" fn=belt_block::belt_wblock_enc,belt_block::belt_wblock_dec uses=c_belt_block_raw timeout=900
+// @ob name=w_rtrev_48 props=C01,C18,C20 kind=bounded bound="input length 48 bytes" fn=belt_block::belt_wblock_enc,belt_block::belt_wblock_dec uses=c_belt_block_raw timeout=900
+wblock_tr!(48, w_enc_48, w_dec_48, w_rt_48, w_rtrev_48);
 
 // Every length below 32: both calls return the length error and leave the buffer as it was (complete: all n <= 31,
 // all contents; no stub).
